@@ -208,6 +208,11 @@ class Report:
                 "functions_analysed": sorted(self.functions),
                 "modules_consulted": dict(sorted(self.repo.consulted.items())),
                 "modules_parsed": len(self.repo.modules),
+                # load-time rewrites that went beyond orientation, in the modules this check consulted (empty on the pinned tree)
+                "helpers_substituted": {rel: list(getattr(self.repo.modules[rel], "inlined", []) or []) for rel in sorted(self.repo.consulted)
+                                        if rel in self.repo.modules and getattr(self.repo.modules[rel], "inlined", None)},
+                "options_analysed_at_default": {rel: [list(x) for x in getattr(self.repo.modules[rel], "specialised", [])] for rel in sorted(self.repo.consulted)
+                                                if rel in self.repo.modules and getattr(self.repo.modules[rel], "specialised", None)},
                 "not_decided": meta.get("not_decided", ""),
                 "known_findings_reported": [
                     {"rule": o["rule"], "site": o["site"], "construct": o["construct"]}
